@@ -142,3 +142,13 @@ package webrtc
 //@ loop 1 break uint64(payloadType) <= 255 && codec.PayloadType == PayloadType(payloadType) && aptMatch == codecMatchNone
 //@ atreturn assert aptMatch == codecMatchPartial ==> ret1 != codecMatchExact
 //@ atreturn assert aptMatch == codecMatchNone ==> ret1 == codecMatchNone
+
+// Remote codecs are mapped onto local ones one-to-one: the local codec struck from the
+// candidates after a match is looked up with the parameters of the codec that was matched
+// (not of the remote one — a partial match differs from it), so that a second remote variant
+// cannot be rewritten to the same payload type. Both fmtp.Parse sites of the closure are
+// anchored: the needle comes from matchCodec, the probe from the candidate under test.
+//@ func (*RTPTransceiver).setCodecPreferencesFromRemoteDescription$1
+//@ props C10
+//@ nosafety
+//@ atcall fmtp.Parse assert (callarg0 == matchCodec.RTPCodecCapability.MimeType && callarg1 == matchCodec.RTPCodecCapability.ClockRate && callarg2 == matchCodec.RTPCodecCapability.Channels && callarg3 == matchCodec.RTPCodecCapability.SDPFmtpLine) || (callarg0 == leftCodec.RTPCodecCapability.MimeType && callarg1 == leftCodec.RTPCodecCapability.ClockRate && callarg2 == leftCodec.RTPCodecCapability.Channels && callarg3 == leftCodec.RTPCodecCapability.SDPFmtpLine)
